@@ -59,7 +59,7 @@ func genC16(r *simrt.RNG, tier string, variant int) Plan {
 			// and a new reverse stream on the re-established one
 			p.Ops = append(p.Ops, Op{Kind: "revsub", Client: 0, Tok: tok, N: 12, Hold: true})
 			tok++
-			p.Ops = append(p.Ops, Op{Kind: "revsub", Client: 0, Tok: tok, N: Pick(r, []int{3, 10}), Phase: 1})
+			p.Ops = append(p.Ops, Op{Kind: "revsub", Client: 0, Tok: tok, N: Pick(r, []int{3, 10}), Phase: 1, Hold: r.Bool(0.7)})
 			tok++
 		}
 		// black holes are excluded: a server without a read timeout cannot notice a
@@ -104,7 +104,16 @@ func runC16(e *Env, p *Plan) {
 			w.Start(op, nil)
 			continue
 		}
-		w.Register(op)
+		tk := w.Register(op)
+		if op.Kind == "revsub" && op.Hold {
+			// its producer also pauses after the first value, so that the stream is
+			// still open when the old connection's producers resume
+			g := make(chan struct{})
+			lateGates = append(lateGates, g)
+			tk.mu.Lock()
+			tk.Gate = g
+			tk.mu.Unlock()
+		}
 		e.S.Go("gate-"+itoa(op.Tok), func() {
 			<-faultC
 			// wait until the client is connected again (a call in the window fails fast)
